@@ -63,10 +63,61 @@ fn record(args: &[String]) {
     out.finish();
 }
 
+/// Exhaustive byte-pair sweep (thorough tier): for every first byte a, one document whose 256
+/// objects carry the two-byte content [a, b] for every b, as a name, a literal string, a
+/// hexadecimal string, a dictionary key and a stream body.
+fn pairs(args: &[String]) {
+    use lopdf::{Dictionary, Object, Stream, StringFormat};
+    let from = arg_u64(args, "--from", 0) as u16;
+    let to = arg_u64(args, "--to", 256) as u16;
+    let mut out = NdjsonOut::create(&arg(args, "--out").unwrap());
+    let mut case = 0;
+    for kind in ["name", "lit", "hex", "key", "stream"] {
+        for a in from..to {
+            let mut doc = Document::with_version("1.7");
+            for b in 0..256u16 {
+                let pair = vec![a as u8, b as u8];
+                let o = match kind {
+                    "name" => Object::Name(pair),
+                    "lit" => Object::String(pair, StringFormat::Literal),
+                    "hex" => Object::String(pair, StringFormat::Hexadecimal),
+                    "key" => {
+                        let mut d = Dictionary::new();
+                        d.set(pair, Object::Integer(b as i64));
+                        Object::Dictionary(d)
+                    }
+                    _ => Object::Stream(Stream::new(Dictionary::new(), pair)),
+                };
+                doc.objects.insert((b as u32 + 1, 0), o);
+            }
+            doc.max_id = 256;
+            doc.trailer.set("Root", Object::Reference((1, 0)));
+            let fmt = if (a as usize + kind.len()) % 2 == 0 { "table" } else { "stream" };
+            doc.reference_table.cross_reference_type =
+                if fmt == "table" { XrefType::CrossReferenceTable } else { XrefType::CrossReferenceStream };
+            out.put(&json!({"ev": "Reset", "case": case}));
+            let before = doc_to_tla(&doc);
+            match save(&mut doc) {
+                Ok(bytes) => {
+                    out.put(&json!({"ev": "Save", "case": case, "cycle": 1, "fmt": fmt, "doc": before, "res": "ok", "bytes": bytes_to_json(&bytes), "sweep": kind, "first": a}));
+                    match load(&bytes) {
+                        Ok(d) => out.put(&json!({"ev": "Load", "case": case, "cycle": 1, "res": "ok", "doc": doc_to_tla(&d)})),
+                        Err(e) => out.put(&json!({"ev": "Load", "case": case, "cycle": 1, "res": e, "doc": doc_to_tla(&Document::new())})),
+                    }
+                }
+                Err(e) => out.put(&json!({"ev": "Save", "case": case, "cycle": 1, "fmt": fmt, "doc": before, "res": e, "bytes": Value::Array(vec![]), "sweep": kind, "first": a})),
+            }
+            case += 1;
+        }
+    }
+    out.finish();
+}
+
 fn main() {
     let args: Vec<String> = std::env::args().collect();
     match args.get(1).map(String::as_str) {
         Some("record") => record(&args),
+        Some("pairs") => pairs(&args),
         _ => {
             eprintln!("usage: c01 record --seed S --n N --out F");
             std::process::exit(2)
